@@ -143,6 +143,16 @@ package codegen
 //@ trusted (context.Context).Value(key) (v)
 //@   nopanic
 //@   pure
+// Response handlers returned by Exec (query, mutation, subscription): the bytes that become Response.Data are
+// marshalled into a buffer declared inside the handler, i.e. one per call - a transport may still hold an earlier
+// response (multipart/mixed batches payloads between flush ticks) when the next one is produced (C12, C13).
+//@ trusted github.com/99designs/gqlgen/graphql.GetOperationContext(ctx) (oc)
+//@   pure
+//@ family exec [C13,C12]
+//@   ensures calls(GetOperationContext) == 1
+//@ family exec$closure(@returned) [C13,C12]
+//@   at! `data.MarshalGQL(&buf)` requires declaredHere(buf)
+//@   replay subscriptionMultipart.go.tmpl for declaredHere
 // C01 (every exec layout): when the schema has a FIELD-location directive the generated package holds the dispatcher
 // _fieldMiddleware; then every field function that resolves anything goes through it - never straight to
 // ResolverMiddleware - no matter which generated file the field's type ended up in (follow-schema renders each
